@@ -197,6 +197,35 @@ def parseTime (s : String) : Option Int :=
   let cs := s.toList
   if matchesDateRE cs then parseDate cs else parseRFC3339 cs
 
+/-- civil date of a day number since 1970-01-01 (Hinnant's civil_from_days) -/
+def civilFromDays (z0 : Int) : Int × Nat × Nat :=
+  let z := z0 + 719468
+  let era := z / 146097
+  let doe := z - era * 146097
+  let yoe := (doe - doe / 1460 + doe / 36524 - doe / 146096) / 365
+  let y := yoe + era * 400
+  let doy := doe - (365 * yoe + yoe / 4 - yoe / 100)
+  let mp := (5 * doy + 2) / 153
+  let d := doy - (153 * mp + 2) / 5 + 1
+  let m := if mp < 10 then mp + 3 else mp - 9
+  (if m ≤ 2 then y + 1 else y, m.toNat, d.toNat)
+
+def pad (n width : Nat) : String :=
+  let s := toString n
+  String.ofList (List.replicate (width - s.length) '0') ++ s
+
+/-- Go's time.Time.MarshalJSON / Format(RFC3339Nano) in UTC -/
+def renderRFC3339 (ns : Int) : String :=
+  let secs := ns / 1000000000
+  let frac := (ns % 1000000000).toNat
+  let days := secs / 86400
+  let tod := (secs % 86400).toNat
+  let (y, m, d) := civilFromDays days
+  let fracS := if frac = 0 then "" else
+    "." ++ String.ofList ((pad frac 9).toList.reverse.dropWhile (· == '0')).reverse
+  pad y.toNat 4 ++ "-" ++ pad m 2 ++ "-" ++ pad d 2 ++ "T" ++ pad (tod / 3600) 2 ++ ":" ++ pad (tod % 3600 / 60) 2 ++ ":" ++
+    pad (tod % 60) 2 ++ fracS ++ "Z"
+
 /-! ### convertStringToXSDValue -/
 
 def convert (canon : String → Option String) (dt lex : String) (p : Nat) : Except String XVal :=
